@@ -37,15 +37,17 @@ UnlistVerdict(t, by, unl, colcmp, idcol) ==
     ELSE ""
 
 \* ---- groupby / ungroup -------------------------------------------------------------------------
-\* out rows: the key cells plus grp = <<"tbl", [cols, rows]>>
-GroupbyVerdict(t, by, out) ==
+\* out rows: the key cells plus the sub-table column, named grp (the default "grp" or the name that was asked for),
+\* whose cells are <<"tbl", [cols, rows]>>.  A name that is itself a key column is outside the domain (one column per name).
+GroupbyVerdict(t, by, grp, out) ==
     IF NRows(t) = 0 THEN (IF out.rows = <<>> THEN "" ELSE "groupby_rows_from_nothing")
-    ELSE IF Range(out.cols) # Range(by) \cup {"grp"} THEN "groupby_columns"
+    ELSE IF grp \in Range(by) THEN ""
+    ELSE IF Range(out.cols) # Range(by) \cup {grp} THEN "groupby_columns"
     ELSE IF Len(out.rows) # Cardinality(Reps(t, by)) THEN "groupby_one_row_per_key"
-    ELSE IF \E n \in 1..Len(out.rows) : out.rows[n].grp[1] # "tbl" THEN "groupby_cell_not_a_table"
+    ELSE IF \E n \in 1..Len(out.rows) : out.rows[n][grp][1] # "tbl" THEN "groupby_cell_not_a_table"
     ELSE IF \E i \in Reps(t, by) : ~\E n \in 1..Len(out.rows) :
                 /\ SameKey(out.rows[n], t.rows[i], by)
-                /\ LET g == out.rows[n].grp[2]  js == SetToSortSeq(ClassIdx(t, by, i), <) IN
+                /\ LET g == out.rows[n][grp][2]  js == SetToSortSeq(ClassIdx(t, by, i), <) IN
                       /\ Range(g.cols) = NonKeys(t, by)
                       /\ g.rows = [m \in 1..Len(js) |-> [cc \in NonKeys(t, by) |-> t.rows[js[m]][cc]]]
          THEN "groupby_groups"
@@ -56,30 +58,64 @@ UngroupVerdict(t, by, ung) ==
     ELSE IF ~BagEq(ung.rows, t.rows, Range(by)) THEN "ungroup_rows" ELSE ""
 
 \* ---- pivot / unpivot ---------------------------------------------------------------------------
-\* y values are strings or ints; as column labels ints are rendered as decimal strings
-Label(v) == IF Tag(v) = "i" THEN ToString(Pay(v)) ELSE Pay(v)
-Labels(t, y) == {Label(t.rows[i][y]) : i \in 1..NRows(t)}
+\* A y value is RENDERED as a column label: a string is its own label, an int becomes its decimal string (the documented
+\* "conversion to column names"); every other scalar (None, float, datetime, a NaN object) labels its column as itself
+\* (named deviation LabelItself: the statement does not say how such a y value is rendered; the code keeps the object).
+\* Column labels cross the JSON boundary as strings: a string as itself, any other object as "#<tag>:<payload>"
+\* (the string universes never contain '#'); LabelEnc is the encoded label the specification expects for a y value.
+RenderVal(v) == IF Tag(v) = "i" THEN VStr(ToString(Pay(v))) ELSE v
+LabelEnc(v) == CASE Tag(v) = "s"   -> Pay(v)
+                 [] Tag(v) = "i"   -> ToString(Pay(v))
+                 [] Tag(v) = "n"   -> "#n"
+                 [] Tag(v) = "f"   -> "#f:" \o ToString(Pay(v)[1]) \o "/" \o ToString(Pay(v)[2])
+                 [] Tag(v) = "d"   -> "#d:" \o ToString(Pay(v)[1]) \o ":" \o ToString(Pay(v)[2]) \o ":" \o ToString(Pay(v)[3])
+                 [] Tag(v) = "nan" -> "#nan"
+                 [] Tag(v) = "inf" -> "#inf:" \o ToString(Pay(v))
+                 [] OTHER          -> "#?"
+\* y values address one column when they are equal as keys (1 and 1.0, two NaN objects); the column shows one member's label
+YClass(t, y, i) == {j \in 1..NRows(t) : KeyEq(t.rows[j][y], t.rows[i][y])}
+YReps(t, y) == {i \in 1..NRows(t) : \A j \in 1..(i - 1) : ~KeyEq(t.rows[i][y], t.rows[j][y])}
+ClassLabels(t, y, i) == {LabelEnc(t.rows[j][y]) : j \in YClass(t, y, i)}
+AllLabels(t, y) == UNION {ClassLabels(t, y, i) : i \in 1..NRows(t)}
+\* outside the domain: a table has one column per name, so no label may be the name of an x column and two different
+\* y values may not render to one label (1 and "1")
+LabelClash(t, xs, y) == \/ AllLabels(t, y) \cap Range(xs) # {}
+                        \/ \E i, j \in 1..NRows(t) : ~KeyEq(t.rows[i][y], t.rows[j][y]) /\ LabelEnc(t.rows[i][y]) = LabelEnc(t.rows[j][y])
 Agg(agg, zs) == CASE agg = "list" -> VLst(zs) [] agg = "len" -> VInt(Len(zs)) [] agg = "first" -> zs[1] [] agg = "last" -> zs[Len(zs)]
-CellZs(t, xs, y, z, i, lab) ==
-    LET js == SetToSortSeq({j \in ClassIdx(t, xs, i) : Label(t.rows[j][y]) = lab}, <) IN [n \in 1..Len(js) |-> t.rows[js[n]][z]]
+\* the z values of the rows of x class i and y class k, in original row order
+CellZs(t, xs, y, z, i, k) ==
+    LET js == SetToSortSeq(ClassIdx(t, xs, i) \cap YClass(t, y, k), <) IN [n \in 1..Len(js) |-> t.rows[js[n]][z]]
 PivotVerdict(t, xs, y, z, agg, out) ==
-    IF Range(out.cols) # Range(xs) \cup Labels(t, y) THEN "pivot_columns"
+    IF LabelClash(t, xs, y) THEN ""
+    ELSE IF \/ Len(out.cols) # Cardinality(Range(out.cols))
+            \/ ~(Range(xs) \subseteq Range(out.cols))
+            \/ ~(Range(out.cols) \ Range(xs) \subseteq AllLabels(t, y))
+            \/ \E k \in YReps(t, y) : Cardinality(ClassLabels(t, y, k) \cap Range(out.cols)) # 1
+         THEN "pivot_columns"
     ELSE IF Len(out.rows) # Cardinality(Reps(t, xs)) THEN "pivot_one_row_per_x"
     ELSE IF \E i \in Reps(t, xs) : ~\E n \in 1..Len(out.rows) :
                 /\ SameKey(out.rows[n], t.rows[i], xs)
-                /\ \A lab \in Labels(t, y) : LET zs == CellZs(t, xs, y, z, i, lab) IN
+                /\ \A k \in YReps(t, y) :
+                      LET zs == CellZs(t, xs, y, z, i, k)
+                          lab == CHOOSE l \in ClassLabels(t, y, k) : l \in Range(out.cols) IN
                       out.rows[n][lab] = (IF zs = <<>> THEN None ELSE Agg(agg, zs))
          THEN "pivot_cells"
     ELSE ""
-UniqueXY(t, xs, y) == \A i, j \in 1..NRows(t) : (i # j /\ SameKey(t.rows[i], t.rows[j], xs)) => Label(t.rows[i][y]) # Label(t.rows[j][y])
-\* unp: unpivot of the pivot (agg = last) with the None cells dropped
+UniqueXY(t, xs, y) == \A i, j \in 1..NRows(t) : (i # j /\ SameKey(t.rows[i], t.rows[j], xs)) => ~KeyEq(t.rows[i][y], t.rows[j][y])
+\* unp: unpivot of the pivot (agg = last) with the None cells dropped.  Row i of the table (z not None) must come back exactly
+\* once: its x cells (as keys), its z, and as y the rendering of a member of its y class.
+UnpMatch(t, xs, y, z, u, i) ==
+    /\ SameKey(u, t.rows[i], xs)
+    /\ u[z] = t.rows[i][z]
+    /\ \E j \in YClass(t, y, i) : u[y] = RenderVal(t.rows[j][y])
 UnpivotVerdict(t, xs, y, z, unp) ==
-    IF ~UniqueXY(t, xs, y) THEN ""
-    ELSE LET want == SelectSeq([i \in 1..NRows(t) |-> [cc \in Range(xs) \cup {y, z} |->
-                                   IF cc = y THEN VStr(Label(t.rows[i][y])) ELSE t.rows[i][cc]]], LAMBDA r : ~IsNone(r[z]))
-         IN IF NRows(t) = 0 THEN "" ELSE
-            IF Range(unp.cols) # Range(xs) \cup {y, z} THEN "unpivot_columns"
-            ELSE IF ~BagEq(unp.rows, want, Range(xs)) THEN "unpivot_rows" ELSE ""
+    IF ~UniqueXY(t, xs, y) \/ LabelClash(t, xs, y) \/ NRows(t) = 0 THEN ""
+    ELSE LET want == {i \in 1..NRows(t) : ~IsNone(t.rows[i][z])} IN
+         IF Range(unp.cols) # Range(xs) \cup {y, z} THEN "unpivot_columns"
+         ELSE IF \/ Len(unp.rows) # Cardinality(want)
+                 \/ \E i \in want : Cardinality({n \in 1..Len(unp.rows) : UnpMatch(t, xs, y, z, unp.rows[n], i)}) # 1
+              THEN "unpivot_rows"
+         ELSE ""
 
 \* ---- constructive level -----------------------------------------------------------------------
 KeyTuple(r, by) == VTup([k \in 1..Len(by) |-> r[by[k]]])
